@@ -158,8 +158,8 @@ theorem evalNode_alive (ef : Node → St → Res × St) (hef : EvalA env ef) : C
     split
     · split
       · exact h.hitEdge n ha
-      · exact hef n s ha h
-    · exact hef n s ha h
+      · exact (hef n s ha h).of_same (keepExc_excOnly s _).gn (keepExc_excOnly s _).stack
+    · exact (hef n s ha h).of_same (keepExc_excOnly s _).gn (keepExc_excOnly s _).stack
   · exact h.of_same rfl rfl
 
 theorem runN_alive : ∀ d, EvalA env (runN env d) := by
@@ -254,8 +254,8 @@ theorem evalNode_rgHeld (ef : Node → St → Res × St) (hef : CalleeR ef) : Ca
   · split
     · split
       · exact h.of_same (rg_hitEdge s n) (Ext.of_data (sameCache_hitEdge s n).data)
-      · exact hef n s h
-    · exact hef n s h
+      · exact (hef n s h).of_same (keepExc_excOnly s _).rg (Ext.of_data (keepExc_excOnly s _).data)
+    · exact (hef n s h).of_same (keepExc_excOnly s _).rg (Ext.of_data (keepExc_excOnly s _).data)
   · exact h.of_same rfl (Ext.of_data rfl)
 
 theorem RgHeld.rollback {s : St} (h : RgHeld s) (n : Node) : RgHeld (s.rollback n) :=
